@@ -403,6 +403,123 @@ async def one_message(part, kind, c, b, r):
         chk(f'{verb.decode()} copy RFC822.SIZE', int(got[b'RFC822.SIZE'].val), len(cwant), 'copy-size-differs')
 
 
+def _expand_set(text):
+    out = []
+    for piece in text.split(b','):
+        lo, _, hi = piece.partition(b':')
+        lo, hi = int(lo), int(hi or lo)
+        out.extend(range(lo, hi + 1) if lo <= hi else range(lo, hi - 1, -1))
+    return out
+
+
+async def l3_multi_copy(part, kind, msgs, r):
+    """COPY and MOVE of several messages at once: the copy that COPYUID announces for message u holds the bytes of u (and every requested message has one)"""
+    base = None
+    if kind == 'dict':
+        backend, config = await backends.make_dict(users=[('alice', 'pw', ())])
+        login = backend.login
+        userpw = b'alice pw'
+    else:
+        base = backends.scratch_dir()
+        config, login = await backends.make_maildir(base, layout=r.choice(['++', 'fs']))
+        userpw = b'alice pwalice'
+    from pymap.imap import IMAPServer
+    srv = IMAPServer(login, config)
+    c = wire.Client(srv)
+    try:
+        await c.start()
+        await c.send(b'a LOGIN ' + userpw + b'\r\n')
+        orig = {}
+        for m_ in msgs:
+            raw = await c.send(b'a APPEND INBOX {%d+}\r\n' % len(m_) + m_ + b'\r\n')
+            mt = re.search(rb'APPENDUID \d+ (\d+)', raw)
+            if mt:
+                orig[int(mt.group(1))] = m_
+        await c.send(b'a SELECT INBOX\r\n')
+
+        async def bodies(box):
+            await c.send(b'a EXAMINE %s\r\n' % box)
+            out = await c.send(b'a UID FETCH 1:* (UID RFC822.SIZE BODY.PEEK[])\r\n')
+            res = {}
+            for resp in imapresp.parse(out):
+                f = imapresp.fetch_items(resp)
+                if f and b'UID' in f[1] and isinstance(f[1].get(b'BODY[]'), imapresp.Tok):
+                    res[int(f[1][b'UID'].val)] = (f[1][b'BODY[]'].val, int(f[1][b'RFC822.SIZE'].val))
+            await c.send(b'a SELECT INBOX\r\n')
+            return res
+        src = await bodies(b'INBOX')
+        if len(src) < 4:
+            return
+        log = []
+        case = dict(level='L3', scenario='multi-copy', backend=kind, messages=[list(m_) for m_ in msgs], log=log)
+        live = sorted(src)
+        dests = [b'other', b'third', b'fourth', b'fifth']
+        for d in dests:
+            await c.send(b'a CREATE %s\r\n' % d)
+        # sets of two to four UIDs that straddle a multiple of 8 come out of a Python set in another order than ascending
+        directed = [b'%d:%d' % (u - k, u) for u in live for k in (1, 3) if u % 8 == 0 and u - k in live]
+        for n in range(r.randint(4, 7)):
+            if len(live) < 3:
+                break
+            x = r.random()
+            if directed and (n == 0 or x < 0.25):
+                spec, by_uid = directed.pop(r.randrange(len(directed))), True
+            elif x < 0.5:
+                lo = r.choice(live[:-1])
+                spec, by_uid = b'%d:%d' % (lo, r.choice([u for u in live if u > lo])), True
+            elif x < 0.7:
+                ks = r.sample(live, r.randint(2, min(5, len(live))))
+                spec, by_uid = b','.join(b'%d' % u for u in ks), True
+            elif x < 0.8:
+                spec, by_uid = b'%d:*' % r.choice(live), True
+            else:
+                lo = r.randint(1, len(live) - 1)
+                spec, by_uid = b'%d:%d' % (lo, r.randint(lo + 1, len(live))), False
+            verb = b'MOVE' if r.random() < 0.3 else b'COPY'
+            dest = r.choice(dests)
+            asked = set(_expand_set(spec.replace(b'*', b'%d' % (live[-1] if by_uid else len(live)))))
+            asked = (asked & set(live)) if by_uid else {live[k - 1] for k in asked if 1 <= k <= len(live)}
+            if b'*' in spec:
+                asked.add(live[-1])
+            cmd = b'a %s%s %s %s' % (b'UID ' if by_uid else b'', verb, spec, dest)
+            log.append(cmd.decode())
+            out = await c.send(cmd + b'\r\n')
+            part.stat(f'{kind}:multi-{verb.decode().lower()}')
+            mt = re.search(rb'\[COPYUID \d+ (\S+) (\S+)\]', out)
+            if mt is None or b'a OK' not in out:
+                part.violation('monitor', f'{kind}: {cmd!r} failed or announced no COPYUID: {out[-200:]!r}', dict(case), signature='copy-failed')
+                return
+            su, du = _expand_set(mt.group(1)), _expand_set(mt.group(2))
+            if len(su) != len(du) or set(su) != asked:
+                part.violation('monitor', f'{kind}: {cmd!r} announces {mt.group(0)!r} for the requested messages {sorted(asked)}', dict(case), signature='copyuid-sets')
+                return
+            there = await bodies(dest)
+            for u, d in zip(su, du):
+                want = src[u]
+                got = there.get(d)
+                ok = got is not None and (got == want or (kind == 'maildir' and u in orig and got[0] == expected_store(kind, orig[u], copy=True) and got[1] == len(got[0])))
+                if got is not None and got != want and ok:
+                    part.stat('maildir:copy-roundtrip(D6)')
+                if not ok:
+                    whose = [v for v, w in src.items() if got is not None and w[0] == got[0]]
+                    part.violation('monitor', f'{kind}: after {cmd!r} ({mt.group(0).decode()}) the copy announced for uid {u} - uid {d} of {dest.decode()} - '
+                                   + (f'is missing' if got is None else f'holds the bytes of uid {whose}' if whose else f'holds {got[0][:60]!r} (size {got[1]}), the message is {want[0][:60]!r}'),
+                                   dict(case), signature='copy-differs')
+                    return
+            part.case(key=f'multi-copy:{kind}:{verb.decode()}:{"uid" if by_uid else "seq"}:{min(len(su), 5)}', nontrivial=True)
+            if verb == b'MOVE':
+                live = [u for u in live if u not in asked]
+                directed = [sp for sp in directed if set(_expand_set(sp)) <= set(live)]
+        await c.eof()
+    finally:
+        if c.task is not None and c.task.done() and not c.task.cancelled() and c.task.exception() is not None:
+            part.stat(f'{kind}:connection-died:{type(c.task.exception()).__name__}')      # e.g. known finding D5 on maildir
+        else:
+            await c.finish()
+        if base:
+            backends.rmtree(base)
+
+
 # ------------------------------------------------------------------ driver
 def worker(job):
     seed, n_l1, n_l3, corpus = job
@@ -435,6 +552,8 @@ def worker(job):
             with guarded(part, f'C03 L3 two sessions {kind}', dict(level='L3', backend=kind, seed=seed, scenario='two-sessions')):
                 pool = [b for b in msgs if b.strip()]
                 asyncio.run(l3_two_sessions(part, kind, [bytes(b'X-N: %d\r\n' % j) + r2.choice(pool) for j in range(r2.randint(3, 6))], r2))
+            with guarded(part, f'C03 L3 multi copy {kind}', dict(level='L3', backend=kind, seed=seed, scenario='multi-copy')):
+                asyncio.run(l3_multi_copy(part, kind, [bytes(b'X-N: %d\r\n' % j) + r2.choice(pool) for j in range(r2.randint(8, 14))], r2))
     return part.result()
 
 
@@ -482,6 +601,13 @@ def replay(case):
         m = Model()
         l1_case(m, part, data, case.get('o', 0), case.get('n', 1))
         m.close()
+    elif case.get('scenario') in ('multi-copy', 'two-sessions'):
+        # the recorded messages again, under a sweep of schedules of the same family
+        fn = l3_multi_copy if case['scenario'] == 'multi-copy' else l3_two_sessions
+        for k in range(40):
+            asyncio.run(fn(part, case['backend'], [bytes(m_) for m_ in case['messages']], random.Random(k)))
+            if part.result()['violations']:
+                break
     else:
         asyncio.run(l3_backend(part, case['backend'], [data], random.Random(1)))
     res = part.result()
